@@ -1,7 +1,217 @@
+import AuModel.MathFn
 import Driver.Util
-open Au
+open Au Au.C15
 
-def dispatchC15 : List String → Option String
+namespace C15Drv
+
+def parseBase? (s : String) : Option MBase :=
+  if s = "pi" then some .pi else (parseNat? s).map .prime
+
+def parseFactor? (s : String) : Option (MBase × Int) :=
+  match s.splitOn "^" with
+  | [b, e] => match parseBase? b, parseInt? e with
+    | some b, some e => some (b, e)
+    | _, _ => none
   | _ => none
 
-/-! Driver commands for C15. -/
+def parseMag? (s : String) : Option Mag :=
+  if s = "1" then some []
+  else
+    let parts := (s.splitOn ",").map parseFactor?
+    match allSome parts with
+    | some m => if Mag.wf m && List.all m (fun be => match be.1 with | .prime p => decide (p < 2 ^ 63) | .pi => true) then some m else none
+    | none => none
+
+def parseFVal? (s : String) : Option FVal :=
+  if s = "nan" then some .nan
+  else if s = "inf" then some (.inf false)
+  else if s = "-inf" then some (.inf true)
+  else match s.splitOn "@" with
+    | [m, e] => match parseInt? m, parseInt? e with
+      | some m, some e => some (.fin ((m : Rat) * pow2 e))
+      | _, _ => none
+    | _ => none
+
+/-- A value of type `ty`; floats must be representable in their format, integers in range. -/
+def parseVal? (ty : ArithTy) (s : String) : Option Val :=
+  match ty with
+  | .int t => match parseInt? s with
+    | some n => if t.inRange n then some (.i n) else none
+    | none => none
+  | .flt f => match parseFVal? s with
+    | some (.fin q) => if rne f q = .fin q then some (.f (.fin q)) else none
+    | some v => some (.f v)
+    | none => none
+
+/-- Exponent of the power of two `d`, if it is one. -/
+def log2Exact? (d : Nat) : Option Nat :=
+  let k := Nat.log2 d
+  if 2 ^ k = d then some k else none
+
+def fvalStr : FVal → String
+  | .nan => "nan"
+  | .inf false => "inf"
+  | .inf true => "-inf"
+  | .fin q => match log2Exact? q.den with
+    | some k => s!"{q.num}@-{k}"
+    | none => s!"rat:{q.num}/{q.den}"
+
+def valStr : Val → String
+  | .i n => toString n
+  | .f v => fvalStr v
+
+def resStr {α : Type} (g : α → String) : Res α → String
+  | .ok a => g a
+  | .ub _ => "ub"
+  | .nocompile _ => "nocompile"
+
+def parseBool? (s : String) : Option Bool :=
+  if s = "1" then some true else if s = "0" then some false else none
+
+def parseFn? (s : String) : Option RFn :=
+  if s = "round" then some .round else if s = "floor" then some .floor else if s = "ceil" then some .ceil else none
+
+def catStr : MCat → String
+  | .intMul => "intMul" | .intDiv => "intDiv" | .rational => "rational" | .irrational => "irrational"
+
+def cmdGv : List String → String
+  | [ts, ms] =>
+    match ArithTy.ofName? ts, parseMag? ms with
+    | some (.flt f), some m => match getValueF f m with
+      | some v => "ok " ++ fvalStr v
+      | none => "none"
+    | some (.int t), some m => match getValueI t m with
+      | some v => s!"ok {v}"
+      | none => "none"
+    | _, _ => "bad-op"
+  | _ => "bad-op"
+
+def cmdConv : List String → String
+  | [rs, ns, ms, xs] =>
+    match ArithTy.ofName? rs, ArithTy.ofName? ns, parseMag? ms with
+    | some R, some N, some m =>
+      match parseVal? R xs with
+      | some x => resStr valStr (convert R N m x)
+      | none => "bad-op"
+    | _, _, _ => "bad-op"
+  | _ => "bad-op"
+
+def cmdRound : List String → String
+  | [fs, rs, os, ms, xs] =>
+    match parseFn? fs, ArithTy.ofName? rs, parseMag? ms with
+    | some fn, some R, some m =>
+      match parseVal? R xs with
+      | some x =>
+        let out : Option String :=
+          if os = "-" then some "-"
+          else (ArithTy.ofName? os).map (fun O => resStr valStr (roundInAs fn R O m x))
+        match out with
+        | some o =>
+          s!"rr={(roundingRep R).name} cat={catStr (categorizeMag m)} arg={resStr fvalStr (roundArg R m x)} res={resStr fvalStr (roundIn fn R m x)} out={o}"
+        | none => "bad-op"
+      | none => "bad-op"
+    | _, _, _ => "bad-op"
+  | _ => "bad-op"
+
+def cmdInv : List String → String
+  | [ts, rs, ks, xs] =>
+    match ArithTy.ofName? rs, parseMag? ks with
+    | some R, some K =>
+      match parseVal? R xs with
+      | some x =>
+        if ts = "-" then
+          s!"compiles={b01 (inverseImplicitCompiles R K)} val={resStr valStr (inverseInImplicit R K x)}"
+        else match ArithTy.ofName? ts with
+          | some T =>
+            let r := inverseIn T R K x
+            let c := match r with | .nocompile _ => false | _ => true
+            s!"compiles={b01 c} val={resStr valStr r}"
+          | none => "bad-op"
+      | none => "bad-op"
+    | _, _ => "bad-op"
+  | _ => "bad-op"
+
+def cmdInvGate : List String → String
+  | [rs, ks] =>
+    match ArithTy.ofName? rs, parseMag? ks with
+    | some R, some K =>
+      s!"compiles={b01 (inverseImplicitCompiles R K)} thr={valStr (thresholdOf R)} unity={resStr valStr (unityIn R K)}"
+    | _, _ => "bad-op"
+  | _ => "bad-op"
+
+def cmdMinMax : List String → String
+  | [which, sames, r1, r2, m1, m2, x1, x2] =>
+    match parseBool? sames, ArithTy.ofName? r1, ArithTy.ofName? r2, parseMag? m1, parseMag? m2 with
+    | some same, some R1, some R2, some M1, some M2 =>
+      match parseVal? R1 x1, parseVal? R2 x2 with
+      | some a, some b =>
+        if same && !(R1 = R2 && M1.isEmpty && M2.isEmpty) then "bad-op"
+        else if which = "max" then resStr valStr (maxQ same R1 R2 M1 M2 a b)
+        else if which = "min" then resStr valStr (minQ same R1 R2 M1 M2 a b)
+        else "bad-op"
+      | _, _ => "bad-op"
+    | _, _, _, _, _ => "bad-op"
+  | _ => "bad-op"
+
+def cmdClamp : List String → String
+  | [s1, s2, rv, rlo, rhi, a1, a2, a3, a4, a5, a6, a7, xv, xlo, xhi] =>
+    match parseBool? s1, parseBool? s2, ArithTy.ofName? rv, ArithTy.ofName? rlo, ArithTy.ofName? rhi with
+    | some sameVLo, some sameHiV, some RV, some RLo, some RHi =>
+      match allSome ([a1, a2, a3, a4, a5, a6, a7].map parseMag?) with
+      | some [m1, m2, m3, m4, m5, m6, m7] =>
+        match parseVal? RV xv, parseVal? RLo xlo, parseVal? RHi xhi with
+        | some v, some lo, some hi =>
+          resStr valStr (clampQ sameVLo sameHiV RV RLo RHi ⟨m1, m2, m3, m4, m5, m6, m7⟩ v lo hi)
+        | _, _, _ => "bad-op"
+      | _ => "bad-op"
+    | _, _, _, _, _ => "bad-op"
+  | _ => "bad-op"
+
+def cmdAbs : List String → String
+  | [rs, xs] =>
+    match ArithTy.ofName? rs with
+    | some R => match parseVal? R xs with
+      | some x => resStr (fun p => s!"{p.1.name} {valStr p.2}") (absQ R x)
+      | none => "bad-op"
+    | none => "bad-op"
+  | _ => "bad-op"
+
+def cmdTwoRep : List String → String
+  | [r1, r2] =>
+    match ArithTy.ofName? r1, ArithTy.ofName? r2 with
+    | some R1, some R2 => (twoArgRep R1 R2).name
+    | _, _ => "bad-op"
+  | _ => "bad-op"
+
+def resUnitStr : ResUnit → String
+  | .raw => "raw" | .target => "target" | .first => "first" | .common => "common" | .radians => "radians"
+
+def cmdResUnit : List String → String
+  | [fn] => match resultUnit fn with
+    | some u => resUnitStr u
+    | none => "bad-op"
+  | _ => "bad-op"
+
+def cmdCat : List String → String
+  | [ms] => match parseMag? ms with
+    | some m => catStr (categorizeMag m)
+    | none => "bad-op"
+  | _ => "bad-op"
+
+end C15Drv
+
+def dispatchC15 : List String → Option String
+  | "c15.gv" :: args => some (C15Drv.cmdGv args)
+  | "c15.conv" :: args => some (C15Drv.cmdConv args)
+  | "c15.round" :: args => some (C15Drv.cmdRound args)
+  | "c15.inv" :: args => some (C15Drv.cmdInv args)
+  | "c15.invgate" :: args => some (C15Drv.cmdInvGate args)
+  | "c15.minmax" :: args => some (C15Drv.cmdMinMax args)
+  | "c15.clamp" :: args => some (C15Drv.cmdClamp args)
+  | "c15.abs" :: args => some (C15Drv.cmdAbs args)
+  | "c15.tworep" :: args => some (C15Drv.cmdTwoRep args)
+  | "c15.resunit" :: args => some (C15Drv.cmdResUnit args)
+  | "c15.cat" :: args => some (C15Drv.cmdCat args)
+  | _ => none
+
+/-! Driver commands for C15 (AuModel.MathFn). -/
